@@ -29,6 +29,9 @@ func enumLiteral(kind string, i int) string {
 	case "string":
 		return fmt.Sprintf("%q", fmt.Sprintf("v%d", i))
 	case "float64", "float32":
+		if i == 2 {
+			return "1.5000001" // distinct from member 1 (1.5) only in the seventh decimal
+		}
 		return fmt.Sprintf("%d.5", i)
 	case "uint64":
 		if i == 3 {
@@ -339,6 +342,15 @@ func EnumCase(r *rand.Rand, name string, o EnumOpts) (*Case, string) {
 				cv.Lines = append(cv.Lines, "enum:exclude "+c.Root+"/"+eb.Path+":FlagsB")
 			}
 			c.Feature("exclude", "true")
+		}
+		if unexported == "" && r.Intn(2) == 0 {
+			// the SAME enum type on both sides under skipCopySameType: the value is passed through, members or not
+			sS.Fields = append(sS.Fields, F("Same", Named(KA)), F("SameL", Slice(Named(KA))))
+			tS.Fields = append(tS.Fields, F("Same", Named(KA)), F("SameL", Slice(Named(KA))))
+			cv.Lines = append(cv.Lines, "skipCopySameType")
+			flags.SkipCopy = true
+			me.Spec.Flags.SkipCopy = true
+			c.Feature("sametype", "skipcopy")
 		}
 		if sk == "string" || sk == "int" || sk == "uint8" || sk == "int32" {
 			// enum as map key (injective on members only: keys are restricted to members by the value generator? no: keep value position only)
